@@ -246,6 +246,16 @@ def eval_diag(case: Dict[str, Any]) -> Dict[str, Any]:
         sk = sk * (rng.random((m, n)) < 0.5)
         sk[np.abs(sk).sum(axis=1) == 0, 0] = 1.0
     yk = sk @ A
+    if case.get("linear") and n >= 2:
+        # an objective that is LINEAR in some variables: their gradient components never change (zero columns of yk) although the
+        # variables move (non-zero columns of sk); the curvature of the pairs lives in the other variables
+        lin = rng.random(n) < 0.35
+        lin[int(rng.integers(0, n))] = False
+        Al = A.copy()
+        Al[lin, :] = 0.0
+        Al[:, lin] = 0.0
+        yk = sk @ Al
+        out["tags"].append("linear_variables=True")
     if not (np.einsum("ij,ij->i", sk, yk) > 0).all():
         return {"corr": None, "skipped": None, "tags": ["no-positive-curvature"], "prop": []}
     op = LbfgsInvHessProduct(sk, yk)
@@ -354,7 +364,7 @@ def run(tier: str, seed: int) -> int:
         r = random.Random(s)
         small = i % 3 == 0
         cases.append({"seed": s, "kind": "diag", "n": r.randint(1, 8 if small else 30), "m": r.randint(1, 5 if small else 12),
-                      "sparse": r.random() < 0.3})
+                      "sparse": r.random() < 0.3, "linear": i % 4 == 1})
     return run_property(
         PROP, "harness.props.c18", THEOREMS, MODULES, cases, tier, seed,
         rule="runs (callable gradient, finite differences, callbacks, restart chains, objective redefinitions): sk, yk of the result and of "
